@@ -37,6 +37,7 @@ type ActCase struct {
 	PostByOption string `json:"post_by_option,omitempty"` // batch-post-by-option kind: the post function is handed to NewBatchNode as a constructor option ("result" / "any" form)
 	CancelInPrep bool `json:"cancel_in_prep,omitempty"` // batch kind: the context is cancelled inside the batch's own prep (the run may fail with the context's error; if it succeeds, its action is not empty)
 	EmptyLast bool `json:"empty_last,omitempty"` // routed: the (inert) connection on the empty action is made AFTER the others
+	EarlierInFlow bool `json:"earlier_in_flow,omitempty"` // routed, with Earlier: the earlier run went through the SAME flow object (and ended at this node, whose action was not connected then)
 	SelfLoop bool `json:"self_loop,omitempty"` // routed: the connection on the expected action leads back to the node itself (its second visit returns "leave", which leads to the probe)
 }
 
@@ -493,7 +494,7 @@ func runActCase(cs *ActCase) (fs []finding) {
 			return
 		}
 		node = scen.NewExec(sc).RootNode()
-		if cs.Earlier != "" { // first use of this node object
+		if cs.Earlier != "" && !cs.EarlierInFlow { // first use of this node object
 			if a, err := flyt.Run(context.Background(), node, flyt.NewSharedStore()); err != nil || string(a) != cs.Earlier {
 				add("earlier-run:"+cs.Kind, "the earlier run of the node returned (%q, %v), want %q", a, err, cs.Earlier)
 			}
@@ -538,6 +539,14 @@ func runActCase(cs *ActCase) (fs []finding) {
 	}
 	if cs.EmptyLast {
 		f.Connect(node, "", dEmpty) // configured last: still a pair of its own that a successful run never selects
+	}
+	if cs.EarlierInFlow {
+		// the very same flow object has run before; the node answered with another (unconnected) action then, which ended that run
+		if err := f.Run(context.Background(), flyt.NewSharedStore()); err != nil {
+			add("flow-failed:"+cs.Kind, "first run of the flow failed: %v", err)
+			return
+		}
+		hit, decoyEmpty, decoyOther = 0, 0, 0
 	}
 	if err := f.Run(runCtx, flyt.NewSharedStore()); err != nil {
 		if cs.CancelInPrep && errors.Is(err, context.Canceled) {
@@ -590,6 +599,7 @@ func runC18(c *Cfg) {
 					}
 				}
 				if routed {
+					cases = append(cases, &ActCase{Family: "grid-second-run-of-the-same-flow", Kind: scen.KindNames[k], Post: post, Routed: true, FailAt: -1, Earlier: "unconnected-the-first-time", EarlierInFlow: true})
 					cases = append(cases, &ActCase{Family: "grid-empty-action-connected-last", Kind: scen.KindNames[k], Post: post, Routed: true, FailAt: -1, EmptyLast: true})
 					cases = append(cases, &ActCase{Family: "grid-self-loop-on-the-reported-action", Kind: scen.KindNames[k], Post: post, Routed: true, FailAt: -1, SelfLoop: true})
 				}
